@@ -128,7 +128,7 @@ PROPS = {
         units=['parser', 'parser_expr', 'parser_unary', 'parser_member', 'parser_matchx', 'tokenizer', 'interp_vm_g1', 'interp_vm_g2', 'interp_vm_g3', 'interp_vm_g4', 'parser_top'],
         assumptions=['the Tokenizer trait is modelled by a ghost token sequence and a cursor (peek does not move, next advances by one)', 'the label counter does not overflow (2^32 labels)'],
         level_text="Every grammar level that has a parse function is proved, for every token sequence, to produce exactly the tree the CEL grammar defines: ?: loosest with a right-nesting else branch, ||, &&, the relations incl. in, + -, * / % (one next-tighter operand followed by a LEFT fold over (operator operand)*, exactly the operator set of the level), runs of ! / - applying to one member expression, postfix .name / (args) / [index] applied left to right, parentheses = the enclosed expression, match = scrutinee { case pattern: expr, ... }; the tokenizer's operator table, keyword table and whitespace skipping; the VM arm contracts fix the operand order. A failed obligation is reported as the violation.",
-        not_covered=['that StringTokenizer as a whole refines the ghost token-stream model of the Tokenizer trait (peek does not move, next advances by one, location() = end of the last scanned token): assumed, so whitespace independence is proved only per token (leading whitespace is skipped and is not part of the token)', 'map literals and f-strings (those arms of parse_primary are dropped)', "each unit knows the next lower grammar level by contract only; parse_primary's and parse_match_pattern's results are additionally assumed to be functions of the tokens"],
+        not_covered=['that StringTokenizer as a whole refines the ghost token-stream model of the Tokenizer trait (peek does not move, next advances by one, location() = end of the last scanned token): assumed, so whitespace independence is proved only per token (leading whitespace is skipped and is not part of the token)', 'f-strings (that arm of parse_primary is dropped)', "each unit knows the next lower grammar level by contract only; parse_primary's and parse_match_pattern's results are additionally assumed to be functions of the tokens"],
     ),
     'C13': dict(
         units=['tokenizer', 'parser_unary'],
@@ -142,7 +142,7 @@ PROPS = {
         units=['parser', 'compprog', 'parser_expr', 'parser_unary', 'parser_member', 'parser_matchx', 'parser_top'],
         assumptions=['ProgramDetails::union_from is set union (HashSet, std)'],
         level_text="The identifier set of every node built under contract is proved to be exactly the union of its children's sets plus, for an identifier primary, its own name: add_ident, the compile! sites of the binary levels, append_result / consume_child / from_children*, the ternary (all three operands), match (scrutinee, every pattern, every arm), index expressions, list literals, calls (receiver and every argument) and check_for_const (keeps the set).",
-        not_covered=['filter_from_bindings / IdentFilterIter', 'f-string and map-literal arms of parse_primary (dropped arms)', 'variables bound by macros (v in [1].map(v, ..)) are reported as parameters: a superset, allowed by the statement'],
+        not_covered=['filter_from_bindings / IdentFilterIter', 'the f-string arm of parse_primary (dropped arm)', 'variables bound by macros (v in [1].map(v, ..)) are reported as parameters: a superset, allowed by the statement'],
     ),
     'C18': dict(
         units=['parser', 'parser_expr', 'parser_unary', 'parser_member', 'parser_matchx', 'scanner', 'tokenizer', 'parser_top'],
@@ -154,7 +154,7 @@ PROPS = {
         units=['parser', 'compprog', 'parser_expr', 'parser_unary', 'parser_member', 'interp_vm_g1', 'interp_vm_g2', 'interp_vm_g3', 'interp_vm_g4', 'interp_vm_g6', 'interp_vm_g7'],
         assumptions=['operators are functions of their operands (op2 uninterpreted; purity by Rust typing)'],
         level_text="At every fold site under contract the value computed at compile time is proved to be the one the emitted instruction computes: binary levels (op2(op, lhs, rhs) for the same op), ternary (same truthiness; a failed constant condition is the result), index, field access (only on map / object constants, only when the access succeeds), list literals and from_children* (fold iff all children constant), calls (check_for_const: replaced by a constant exactly when running the call's OWN code with the compile-time bindings succeeds); the VM arms for the same instructions (operand order, MkDict last-entry-wins, field before method).",
-        not_covered=['now() / zero-argument timestamp() frozen when part of a call chain (F14, unrepaired): which functions the compile-time bindings contain is not decided by any contract', 'the map-literal resolver closure (dropped arm)', 'unbound variables inside folded macro bodies'],
+        not_covered=['now() / zero-argument timestamp() frozen when part of a call chain (F14, unrepaired): which functions the compile-time bindings contain is not decided by any contract', 'the map-literal resolver closure (closure body dropped: which duplicate key wins in a folded map literal is assumed)', 'unbound variables inside folded macro bodies'],
     ),
     'C01': dict(
         units=ALL_UNITS, safety_only=True,
@@ -201,12 +201,12 @@ PROPS = {
     'C10': dict(
         units=['preresolved', 'interp', 'interp_vm_g0', 'compprog', 'parser_expr', 'parser_unary', 'parser_match', 'parser_member', 'parser_matchx', 'parser_top', 'balance'],
         assumptions=['HashMap<u32,usize> semantics (vstd)', 'locations[&label] rewritten to *locations.get(&label).unwrap() (std defines Index that way)'],
-        not_covered=["a machine-checked lemma that the emitted templates are stack-balanced and satisfy resolve()'s precondition (unique, defined labels) is not stated: the templates themselves are pinned instruction by instruction and labels are proved to come fresh from one counter", 'PreResolvedByteCode::extend / push / FromIterator (generic IntoIterator loops): assumed', 'map literal and f-string code (dropped arms)'],
+        not_covered=["a machine-checked lemma that the emitted templates are stack-balanced and satisfy resolve()'s precondition (unique, defined labels) is not stated: the templates themselves are pinned instruction by instruction and labels are proved to come fresh from one counter", 'PreResolvedByteCode::extend / push / FromIterator (generic IntoIterator loops): assumed', 'f-string code (dropped arm)'],
     ),
     'C06': dict(
         units=['value_coll', 'value_arith', 'interp_vm_g4', 'interp_vm_g5', 'interp_vm_g6', 'interp_vm_g7', 'wiring', 'parser_member', 'compprog'],
         assumptions=['HashMap<String,_> key model (axiom), Vec<CelValue>.len() <= isize::MAX (allocation limit)'],
-        not_covered=['map literals in parse_primary (dropped arm; the VM MkDict arm and from_children_w_bytecode ARE under contract)', 'list membership is stated over PartialEq for CelValue, whose own structural impl is outside this unit'],
+        not_covered=['the map-literal resolver closure (folded maps): assumed; the map literal arm itself, the VM MkDict arm and from_children_w_bytecode ARE under contract', 'list membership is stated over PartialEq for CelValue, whose own structural impl is outside this unit'],
     ),
     'C07': dict(
         units=['macros'],
